@@ -437,7 +437,7 @@ func checkClosure(sc *bw.Scenario, w *world, cl *closure, res *vresult, out *sim
 			}
 			dep := b.RegistryPackageVersionDeprecation(pa, parseVersion(rv.V))
 			// (C17 names the deprecation note; for C08 it is registry metadata that must be retrievable unchanged)
-			if rv.DepReason == "" {
+			if rv.DepReason == "" && rv.DepLink == "" {
 				if dep != nil {
 					out.Violate("C17", "deprecation", "invented", fmt.Sprintf("variant %d: %s %s is not deprecated but the bundle records %+v", vi, rp.Addr, rv.V, *dep))
 					out.Violate("C08", "registry-meta", "deprecation", fmt.Sprintf("variant %d: %s %s is not deprecated but the bundle records %+v", vi, rp.Addr, rv.V, *dep))
@@ -518,6 +518,8 @@ func comparePkgDir(sc *bw.Scenario, w *world, pi int, pdir string, vi int, out *
 			if present {
 				cls := "rule-semantics"
 				out.Violate("C03", "bundle-excluded-kept", cls, fmt.Sprintf("variant %d: package %d: %s is excluded by its rules %q but is still in the bundle", vi, pi, p, rulesOf(sc, pi)))
+				// (C10 says the same of a finished bundle: everything its ignore rules exclude has been removed)
+				out.Violate("C10", "bundle-excluded-kept", cls, fmt.Sprintf("variant %d: package %d: %s is excluded by its rules %q but is still in the bundle", vi, pi, p, rulesOf(sc, pi)))
 			} else {
 				out.Probe("bundle-path-removed-by-rules")
 			}
